@@ -25,7 +25,7 @@ import (
 	"github.com/bronlabs/bron-crypto/pkg/ot/base/ecbbot"
 	"github.com/bronlabs/bron-crypto/pkg/ot/base/vsot"
 	"github.com/bronlabs/bron-crypto/pkg/ot/extension/softspoken"
-	"github.com/bronlabs/bron-crypto/pkg/proofs/sigma/compiler/fiatshamir"
+	"github.com/bronlabs/bron-crypto/pkg/proofs/sigma/compiler"
 	"github.com/bronlabs/bron-crypto/pkg/signatures/ecdsa"
 
 	"verifmc/det"
@@ -59,7 +59,7 @@ func k256Suite() *ecdsa.Suite[*k256.Point, *k256.BaseFieldElement, *k256.Scalar]
 // dkls23Case: DKLs23 (base-OT multiplier) threshold ECDSA signing by quorum on dealt shards, through the runner.
 func dkls23Case(cfg string, ac accessstructures.Monotone, quorum []ID, message []byte) *kase {
 	name := "dkls23bbot/" + cfg
-	return &kase{name: name, ids: quorum, sched: true, run: func(x mcrt.Chooser, ks int64, sess int, taps map[ID]*tap) *outcome {
+	return &kase{name: name, ids: quorum, sched: true, heavy: true, run: func(x mcrt.Chooser, ks int64, sess int, taps map[ID]*tap) *outcome {
 		base := proto.DealK256(ac, ks, "c07/"+name)
 		shards := map[ID]*dkls23.Shard[*k256.Point, *k256.BaseFieldElement, *k256.Scalar]{}
 		for id, b := range base {
@@ -137,10 +137,11 @@ func l17Deal(cfg string, ac accessstructures.Monotone, ks int64) l17Shards {
 	return e.v
 }
 
-func lindell17Case(cfg string, ac accessstructures.Monotone, primary, secondary ID, message []byte) *kase {
-	name := "lindell17/" + cfg
+// Lindell17 signing refuses (documented) any compiler that is not straight-line extractable: Fischlin or randomised Fischlin.
+func lindell17Case(cfg string, ac accessstructures.Monotone, primary, secondary ID, nic compiler.Name, message []byte) *kase {
+	name := "lindell17/" + cfg + "-" + string(nic)
 	ids := []ID{primary, secondary}
-	return &kase{name: name, ids: ids, reactive: map[ID]bool{secondary: true}, run: func(_ mcrt.Chooser, ks int64, sess int, taps map[ID]*tap) *outcome {
+	return &kase{name: name, ids: ids, heavy: true, reactive: map[ID]bool{secondary: true}, run: func(_ mcrt.Chooser, ks int64, sess int, taps map[ID]*tap) *outcome {
 		shards := l17Deal(cfg, ac, ks)
 		suite := k256Suite()
 		d := newDrv(ids, taps)
@@ -148,11 +149,11 @@ func lindell17Case(cfg string, ac accessstructures.Monotone, primary, secondary 
 		var pc *l17signing.PrimaryCosigner[*k256.Point, *k256.BaseFieldElement, *k256.Scalar]
 		var sc *l17signing.SecondaryCosigner[*k256.Point, *k256.BaseFieldElement, *k256.Scalar]
 		d.step(primary, "NewPrimaryCosigner", func() (err error) {
-			pc, err = l17signing.NewPrimaryCosigner(ctxs[primary], suite, secondary, shards[primary], fiatshamir.Name, rd(taps, primary))
+			pc, err = l17signing.NewPrimaryCosigner(ctxs[primary], suite, secondary, shards[primary], nic, rd(taps, primary))
 			return err
 		})
 		d.step(secondary, "NewSecondaryCosigner", func() (err error) {
-			sc, err = l17signing.NewSecondaryCosigner(ctxs[secondary], suite, primary, shards[secondary], fiatshamir.Name, rd(taps, secondary))
+			sc, err = l17signing.NewSecondaryCosigner(ctxs[secondary], suite, primary, shards[secondary], nic, rd(taps, secondary))
 			return err
 		})
 		var (
@@ -498,7 +499,7 @@ func rvoleBBOTCase(l int) *kase {
 // rvoleSoftspokenCase: random vector OLE over the OT extension (Bob speaks first).
 func rvoleSoftspokenCase(l int) *kase {
 	name := fmt.Sprintf("rvolesoftspoken/l%d", l)
-	return &kase{name: name, ids: otIDs, reactive: map[ID]bool{alice: true}, run: func(_ mcrt.Chooser, ks int64, sess int, taps map[ID]*tap) *outcome {
+	return &kase{name: name, ids: otIDs, reactive: map[ID]bool{alice: true}, jointBy: map[ID]bool{bob: true}, run: func(_ mcrt.Chooser, ks int64, sess int, taps map[ID]*tap) *outcome {
 		bs := baseSeeds(ks)
 		d := newDrv(otIDs, taps)
 		suite, err := rvole_softspoken.NewSuite(l, k256.NewCurve(), hashFunc)
